@@ -12,6 +12,8 @@ pub enum PingFault {
     /// echo the value of the previous PING seen on this server instead
     Stale,
     Wrong,
+    /// a value that merely looks like the one sent: "07", "+7", "7 ", " 7", "7.0" for "7"
+    Lookalike(u8),
     Error,
     Disconnect,
     /// never answer
@@ -161,6 +163,17 @@ async fn serve(mut s: TcpStream, k: usize, st: Arc<Mutex<RConn>>, server: Arc<RS
                         },
                         Some(PingFault::Stale) => out.extend(bulk(&prev.unwrap_or_else(|| "stale".into()))),
                         Some(PingFault::Wrong) => out.extend(bulk("not-the-value")),
+                        Some(PingFault::Lookalike(k)) => {
+                            let v = val.clone().unwrap_or_default();
+                            let l = match k % 5 {
+                                0 => format!("0{}", v),
+                                1 => format!("+{}", v),
+                                2 => format!("{} ", v),
+                                3 => format!(" {}", v),
+                                _ => format!("{}.0", v),
+                            };
+                            out.extend(bulk(&l))
+                        }
                         Some(PingFault::Error) => out.extend(b"-ERR scripted failure\r\n"),
                         Some(PingFault::Disconnect) => break 'outer,
                         Some(PingFault::Silence) => {}
